@@ -168,9 +168,39 @@ pub fn list_shapes() -> Vec<String> {
     v
 }
 
+thread_local! {
+    /// one buffer per thread, never reallocated: consecutive texts live at the same address, so entries
+    /// that survive from one entry-point call to the next are found again by the memo key (name, pointer)
+    static BUF: std::cell::RefCell<Box<[u8; 96]>> = std::cell::RefCell::new(Box::new([b' '; 96]));
+}
+
+fn raw_call(entry: usize, text: &str) -> String {
+    BUF.with(|b| {
+        let mut b = b.borrow_mut();
+        let n = text.len().min(96);
+        b[..n].copy_from_slice(&text.as_bytes()[..n]);
+        for x in b[n..].iter_mut() {
+            *x = b' ';
+        }
+        let s = std::str::from_utf8(&b[..]).unwrap();
+        let span = sv_parser_parser::Span::new_extra(s, sv_parser_parser::SpanInfo::default());
+        let r = api::guarded(|| match entry {
+            0 => sv_parser_parser::pp_parser(span).map(|(rest, t)| format!("{} {:?}", rest.fragment().len(), t)).map_err(|_| "ERR".to_string()),
+            1 => sv_parser_parser::sv_parser(span).map(|(rest, t)| format!("{} {:?}", rest.fragment().len(), t)).map_err(|_| "ERR".to_string()),
+            2 => sv_parser_parser::lib_parser(span).map(|(rest, t)| format!("{} {:?}", rest.fragment().len(), t)).map_err(|_| "ERR".to_string()),
+            _ => sv_parser_parser::sv_parser_incomplete(span).map(|(rest, t)| format!("{} {:?}", rest.fragment().len(), t)).map_err(|_| "ERR".to_string()),
+        });
+        match r {
+            Ok(Ok(t)) => format!("OK {}", t),
+            Ok(Err(e)) => e,
+            Err(p) => format!("PANIC {}", p),
+        }
+    })
+}
+
 pub fn build(tier: Tier) -> Check<'static> {
     let mut c = Check::new("C17", tier, "6/C17");
-    c.rule = "inputs (vendored seeds, quick: < 300 bytes; the default sentence of every reference-grammar rule; keyword-region programs, also with the region opened in the middle of a module / interface body; left-recursive list shapes of 1..8 elements) x memo policies (FIFO capacities incl. the shipped 1024, periodic flush, forced misses - chosen per thread through the verif hook); acceptance and the positioned tree skeleton must equal the run with an unbounded table; non-trivial = runs in which eviction / flush / forced miss actually happened (hook counters)".into();
+    c.rule = "inputs (vendored seeds, quick: < 300 bytes; the default sentence of every reference-grammar rule; keyword-region programs, also with the region opened in the middle of a module / interface body; left-recursive list shapes of 1..8 elements; pairs of raw entry-point calls on one buffer) x memo policies (FIFO capacities incl. the shipped 1024, periodic flush, forced misses - chosen per thread through the verif hook); acceptance and the positioned tree skeleton must equal the run with an unbounded table; non-trivial = runs in which eviction / flush / forced miss actually happened (hook counters)".into();
     c.assumptions = vec![
         "the verif wrapper around nom-packrat's table delegates to the real PackratStorage and only adds policies and counters".into(),
         "known findings are listed per (input hash, policy); any other pair is a violation".into(),
@@ -236,6 +266,43 @@ pub fn build(tier: Tier) -> Check<'static> {
             }
             s.push_str(if head.starts_with("interface") { "endinterface\n" } else { "endmodule\n" });
             one(acc, &s, false, &pol, "keyword region opened inside a construct");
+        }));
+    }
+    {
+        // what one entry-point call leaves in the table must not reach the next call: two raw parser
+        // calls on texts at ONE address, the policy chosen once before the pair
+        let pol = Arc::new(policies(Tier::Quick));
+        let texts: Vec<&'static str> = vec![
+            "`define A 1\n// c\n`A x \"s\"",
+            "// c\nmodule a; endmodule",
+            "\"s\" \\e  /* c */ `ifdef A x `endif",
+            "module b; wire w; /* c */ endmodule",
+            "module \\e ; string s = \"s\"; endmodule",
+            "library l a.v; // c",
+            "/* c */ `timescale 1ns/1ps\nmodule c; endmodule",
+        ];
+        let n = texts.len();
+        c.parts.push(Part::new("raw-entry-pairs", (4 * n * 4 * n) as u64, "every ordered pair of raw entry-point calls (pp_parser, sv_parser, lib_parser, sv_parser_incomplete) x 7 texts written to one fixed buffer: the second call's result under each memo policy must equal the one with an unbounded table", move |i, acc| {
+            let i = i as usize;
+            let (e1, t1, e2, t2) = (i / (n * 4 * n), (i / (4 * n)) % n, (i / n) % 4, i % n);
+            let run = |p: Policy| api::with_policy(p, false, || {
+                raw_call(e1, texts[t1]);
+                raw_call(e2, texts[t2])
+            });
+            let (reference, _) = run(Policy::Fifo(None));
+            acc.transitions += 2;
+            acc.nontrivial += 1;
+            for p in pol.iter().chain([Policy::Fifo(Some(1)), Policy::Fifo(Some(8))].iter()) {
+                let (got, _) = run(*p);
+                acc.transitions += 2;
+                acc.traces += 1;
+                if got != reference {
+                    acc.class("violation");
+                    acc.violation(None, json!({"first": [e1, t1], "second": [e2, t2], "policy": policy_name(p)}), format!("entry point {} on {:?}, then entry point {} on {:?} in the same buffer: with memo policy {} the second call returns\n  {}\nwith an unbounded table\n  {}", e1, texts[t1], e2, texts[t2], policy_name(p), clip(&got, 300), clip(&reference, 300)));
+                    return;
+                }
+            }
+            acc.class("same-result");
         }));
     }
     {
